@@ -47,7 +47,7 @@ for h in (18, 19):
 # 13.b monolithic
 for h, tier in ((17, "thorough"), (18, "thorough")):
     nm = "find_long_h%d_n17" % h
-    add(nm, "13.b", "find_diff!(%s, %d, 17, true, 40);" % (nm, h), T, tier=tier, timeout=3600, mem_gb=12,
+    add(nm, "13.b", "find_diff!(%s, %d, 17, true, 40);" % (nm, h), T, tier=tier, timeout=7200, mem_gb=12,
         shape={"hay": h, "needle": 17, "alphabet": "{a,b}", "unwind": 40}, unwind_is_violation=True,
         replay="c13_find")
 
@@ -79,7 +79,7 @@ for nm0, w, b in LAYOUTS:
         tier="quick" if quick else "thorough", timeout=1200, mem_gb=8,
         shape={"chars": len(w), "bytes": b, "layout": w, "start": "all f64", "end": "all f64"})
 # 13.e split / join
-for ss, pp in ((2, 1), (3, 1), (3, 2)):
+for ss, pp in ():   # ((2, 1), (3, 1), (3, 2)): the smallest instance ran into the 2400 s cap in the thorough tier; 13.e is not registered
     nm = "split_join_s%d_p%d" % (ss, pp)
     add(nm, "13.e", "split_join!(%s, %d, %d, 12);" % (nm, ss, pp), S, tier="thorough", timeout=2400, mem_gb=16,
         shape={"s": ss, "pattern": pp, "alphabet": "{a, ','}"})
@@ -100,7 +100,7 @@ PROP = Property(
         O("13.d", "slice selects characters [start,end) with floor, negative-from-end and clamping for all doubles; len counts characters",
           ["builtins::string::StringBuiltin::slice", "builtins::string::StringBuiltin::len"], "<= 3 characters of 1-2 bytes, all f64 bounds"),
         O("13.e", "join(split(s, p), p) == s", ["builtins::string::StringBuiltin::split", "builtins::array::ArrayBuiltin::join"],
-          "s <= 3, p 1..2 bytes (thorough only; did not finish in the build session: std str::split searcher)"),
+          "NOT REGISTERED: s = 2, p = 1 ran into the 2400 s cap (std str::split searcher); the obligation is listed for the record only"),
     ],
     harnesses=hs,
     assumptions=[
